@@ -133,8 +133,115 @@ func getExtraBools(c *cors.Config) []string {
 
 // genCfgX is genCfg plus, on a tree that has options unknown to the harness,
 // a random subset of them switched on (kept only if the result is accepted).
+// perturbCfg turns a valid configuration into a form the DOCUMENTATION prohibits but a
+// more lenient library might accept: padded or comma-joined list elements, a padded or
+// extra asterisk, letter case, a trailing slash or an explicit default port on an origin,
+// blank elements, numbers just out of range. On the pinned tree every result is rejected
+// and dropped. On a tree that accepts one, what the configuration MEANS is nobody's
+// documented business - but the library must still agree with itself on it: same verdict
+// in both debug modes (C02), same behaviour after a Config() round trip (C06), and so on.
+func perturbCfg(r *R, c Cfg) Cfg {
+	d := c.clone()
+	lists := []*[]string{&d.Methods, &d.RequestHeaders, &d.ResponseHeaders}
+	pad := func(s string) string {
+		return pick(r, []string{" " + s, s + " ", "\t" + s, " " + s + " "})
+	}
+	switch r.Intn(9) {
+	case 0, 1: // a padded element
+		l := lists[r.Intn(3)]
+		if len(*l) > 0 {
+			i := r.Intn(len(*l))
+			(*l)[i] = pad((*l)[i])
+		} else {
+			*l = []string{pad("X-Padded")}
+		}
+	case 2: // a padded asterisk next to (or instead of) the rest
+		l := lists[r.Intn(3)]
+		found := false
+		for i, x := range *l {
+			if x == "*" {
+				(*l)[i], found = pad("*"), true
+			}
+		}
+		if !found && !(l == &d.ResponseHeaders && d.Credentialed) {
+			*l = insertAt(*l, r.Intn(4), pad("*"))
+		}
+	case 3: // two elements in one string
+		l := lists[r.Intn(3)]
+		if len(*l) >= 2 {
+			joined := (*l)[0] + pick(r, []string{",", ", "}) + (*l)[1]
+			*l = append([]string{joined}, (*l)[2:]...)
+		} else {
+			*l = append(*l, "X-One, X-Two")
+		}
+	case 4, 5: // an origin in a sloppier spelling
+		if len(d.Origins) > 0 && d.Origins[0] != "*" {
+			i := r.Intn(len(d.Origins))
+			o := d.Origins[i]
+			switch r.Intn(6) {
+			case 0:
+				o = pad(o)
+			case 1:
+				o += "/"
+			case 2:
+				o = strings.ToUpper(o[:1]) + o[1:]
+			case 3:
+				if pp, ok := splitPattern(o); ok && pp.Port == "" && pp.Scheme == "https" {
+					o += ":443"
+				} else if ok && pp.Port == "" && pp.Scheme == "http" {
+					o += ":80"
+				}
+			case 4:
+				if j := strings.Index(o, "://"); j > 0 && len(o) > j+4 {
+					o = o[:j+3] + strings.ToUpper(o[j+3:j+4]) + o[j+4:]
+				}
+			case 5:
+				o = strings.Replace(o, "://", "://.", 1) // a leading dot meaning "subdomains"
+			}
+			d.Origins[i] = o
+		}
+	case 6: // blank elements
+		switch r.Intn(3) {
+		case 0:
+			d.Origins = insertAt(d.Origins, r.Intn(4), pick(r, []string{"", " "}))
+		case 1:
+			d.Origins = []string{pick(r, []string{"", " ", "\t"})}
+		default:
+			l := lists[r.Intn(3)]
+			*l = insertAt(*l, r.Intn(4), pick(r, []string{"", " "}))
+		}
+	case 7: // numbers just out of range (a clamping library accepts them)
+		if r.P(0.5) {
+			d.MaxAge = pick(r, []int{86401, 100000, -2, 31536000})
+		} else {
+			d.Status = pick(r, []int{199, 300, 100, 600})
+		}
+	case 8: // an origin list given as one comma-separated string
+		if len(d.Origins) >= 2 && d.Origins[0] != "*" {
+			d.Origins = []string{strings.Join(d.Origins, pick(r, []string{",", ", "}))}
+		}
+	}
+	return d
+}
+
+// genCfgLenient: a perturbed configuration, if the tree under test accepts one.
+func genCfgLenient(r *R, c Cfg) (Cfg, bool) {
+	d := perturbCfg(r, c)
+	if m, err, pan := newMW(d); m != nil && err == nil && pan == nil {
+		if m0, err0, _ := newMW(c); m0 != nil && err0 == nil && d.String() != c.String() {
+			return d, true
+		}
+	}
+	return c, false
+}
+
 func genCfgX(r *R) Cfg {
 	c := genCfg(r)
+	if r.P(0.08) {
+		if d, ok := genCfgLenient(r, c); ok {
+			return d
+		}
+	}
 	unk := unknownBoolFields()
 	if len(unk) == 0 {
 		return c
